@@ -77,7 +77,7 @@ Definition check_case (c : (bool * Z * Z * wstate payload) * observed) : bool :=
 
 (* ---- verdicts: the spec evaluated on the model's file vs the independent
    validator of the written bytes; and the guard of C08_write_wf ------------- *)
-From T4V Require Import C08.Spec C08.Check.
+From T4V Require Import C08.Spec C08.Check C08.ProofsGiven C08.CheckText.
 
 Definition final_state (c : bool * Z * Z * wstate payload)
   : option (option (list (Z * Z)) * wstate payload) :=
@@ -100,8 +100,8 @@ Definition check_verdict (c : (bool * Z * Z * wstate payload) * observed * bool)
   | None => true
   | Some (ren, w) =>
       match write_file ren w with
-      | Complete f => Bool.eqb (wf_fileb f) valid
-      | Raised f _ => Bool.eqb (wf_fileb f) valid
+      | Complete f => Bool.eqb (wf_fileb f && file_numbers_okb f) valid
+      | Raised f _ => Bool.eqb (wf_fileb f && file_numbers_okb f) valid
       | Died _ _ _ => negb valid
       end
   end.
@@ -136,7 +136,12 @@ Definition check_reader (c : (bool * Z * Z * wstate payload) * observed * bool) 
   | None => true
   | Some t =>
       match parse_t4 t with
-      | Some f => String.eqb (print_t4 f) t && Bool.eqb (wf_fileb f) valid
+      | Some f => String.eqb (print_t4 f) t && Bool.eqb (wf_fileb f && file_numbers_okb f) valid
       | None => negb valid
       end
   end.
+
+(* hypotheses of the text-level theorems on the snapshot: the strings of the tables are
+   words (C08_written_text_wf) and the numeric strings are finite numbers (C08_numbers_finite) *)
+Definition text_ok (c : (bool * Z * Z * wstate payload) * observed * bool) : bool :=
+  let '((_, _, _, w), _, _) := c in words_okb w && state_numbers_okb w.
